@@ -5,7 +5,6 @@
   current block, fresh locals, everything else untouched).
 -/
 import QV.Proofs.SemVisit
-import QV.Props.C03
 
 namespace QV.Proofs.SemWalk
 open QV.Model QV.Model.IrSem QV.Proofs.SemIr QV.Proofs.SemVisit
@@ -207,6 +206,17 @@ theorem run_read (wc : Ctx) (o p cls : String) (ci : ClassInfo) (pinfo : PropInf
     have : ((consume (Except.error ExprError.unreadableProperty)).run s).1 = none := rfl
     rw [h] at this
     simp at this
+
+/-- an expression statement: the walk of the expression, then `visit_expression_statement` -/
+theorem run_expr_stmt (wc : Ctx) (e : Expr) (s : WState) :
+    (walkStmt wc none (.expr e)).run s =
+      match (walkRvalue wc e).run s with
+      | (some op, s1) => (some (), { s1 with b := visitExpressionStatement s1.b op })
+      | (none, s1) => (none, s1) := by
+  rw [walkStmt]
+  simp only [run_bind]
+  cases (walkRvalue wc e).run s with
+  | mk r s1 => cases r <;> rfl
 
 /-! ### operator results on the dynamic path are never untyped constants -/
 
